@@ -10,6 +10,7 @@ import Rpcx.Driver.Discovery
 import Rpcx.Driver.Mux
 import Rpcx.Driver.Server
 import Rpcx.Driver.Ingress
+import Rpcx.Driver.Pipe
 /-
   Line-protocol driver: one operation per input line, one canonical output line per
   operation.  Runs the executable definitions of the model (generated and hand-written);
@@ -35,6 +36,7 @@ def step (line : String) : String :=
   | "mux" :: ws => cmdMux ws
   | "srv" :: ws => cmdSrv ws
   | "ing" :: ws => cmdIng ws
+  | "pipe" :: ws => cmdPipe ws
   | _ => "bad-op"
 
 partial def loop (hin : IO.FS.Stream) (hout : IO.FS.Stream) : IO Unit := do
